@@ -604,6 +604,20 @@ func writesHeaderField(info *types.Info, fd *ast.FuncDecl, f *types.Var) bool {
 						w = true
 					}
 				}
+				// handed to a validate helper inside a parameter struct
+				if strings.Contains(strings.ToLower(fn.Name()), "validate") {
+					if lit, ok := astx.Unparen(a).(*ast.CompositeLit); ok {
+						for _, el := range lit.Elts {
+							v := el
+							if kv, ok := el.(*ast.KeyValueExpr); ok {
+								v = kv.Value
+							}
+							if astx.FieldOf(info, v) == f {
+								w = true
+							}
+						}
+					}
+				}
 			}
 			if sel, ok := y.Fun.(*ast.SelectorExpr); ok && astx.FieldOf(info, sel.X) == f {
 				switch fn.Name() {
